@@ -146,9 +146,44 @@ def flat(parts, holes):
     return out
 
 
-def run_parser(ex, f, inp):
+def split_plan(name):
+    """'template@bw' | 'template@k17' | 'template' -> (template, plan)"""
+    if "@" in name:
+        t, p = name.split("@", 1)
+        return t, p
+    return name, None
+
+
+def cuts_for(plan, n):
+    """Read segmentation of the raw stream: None = all at once, 'bw' = one byte per read, 'k<i>' = two segments split at offset i."""
+    if plan is None:
+        return ()
+    if plan == "bw":
+        return tuple(range(1, n))
+    if plan.startswith("k"):
+        return (int(plan[1:]),)
+    raise ValueError(plan)
+
+
+def plans_for(n, tier, name=""):
+    """Read plans of the engine-M obligations for a template of n bytes: all at once, byte-wise, and two segments split at an offset —
+    thorough: every offset; quick: every offset for templates carrying a body, every third offset (rotated by VERIF_SEED) otherwise."""
+    ps = [None, "bw"]
+    if tier == "thorough" or "body" in name or "cl" in name or "chunk" in name:
+        ks = range(2, n)
+    else:
+        ks = range(2 + seed() % 3, n, 3)
+    return ps + ["k%d" % k for k in ks]
+
+
+def native_plan(plan):
+    """plan of the `mtool req|resp <plan>` commands: 0 all at once, 1 byte-wise, k >= 2 two segments split at offset k"""
+    return 0 if plan is None else 1 if plan == "bw" else int(plan[1:])
+
+
+def run_parser(ex, f, inp, cuts=()):
     from mirsym.models_ws import NetStream
-    return ex.run_function(f, [("ref", ("local", HEAPF, 0, ())), ("opaque", "peer")], heap={HEAPF: {0: NetStream(tuple(inp))}})
+    return ex.run_function(f, [("ref", ("local", HEAPF, 0, ())), ("opaque", "peer")], heap={HEAPF: {0: NetStream(tuple(inp), cuts=tuple(cuts))}})
 
 
 def _job(name):
@@ -158,10 +193,12 @@ def _job(name):
         z3, f, mk = _setup()
         from mirsym.exec import z3bool
         from mirsym.models import str_chars
-        tpl = templates(_G["tier"])[name]
+        tname, plan = split_plan(name)
+        res["plan"] = plan
+        tpl = templates(_G["tier"])[tname]
         inp, holes, assume = instantiate(z3, tpl)
         ctx, ex = mk(assume)
-        out = run_parser(ex, f, inp)
+        out = run_parser(ex, f, inp, cuts_for(plan, len(inp)))
         res["paths"] = len(out.rets) + len(out.panics)
         res["symex_s"] = round(time.time() - t0, 2)
         solver_s = 0.0
@@ -191,7 +228,7 @@ def _job(name):
             valid(pc, None, "no panic: " + str(msg)[:100])
         exp_body = None if tpl["body"] is None else flat(tpl["body"], holes)
         consumed = sum(len(s[1]) if s[0] == "lit" else s[2] for s in tpl["segs"])
-        if name in ("body_then_more", "body0_then_more"):
+        if tname in ("body_then_more", "body0_then_more"):
             consumed -= len("GET / HTTP/1.1\r\n\r\n")
         for pc, val, locs, heap in out.rets:
             if val[1] != "Ok":
@@ -440,7 +477,12 @@ def run_part(tier, work, mir):
                     return res
         res["machinery"].append("translator validation: engine and native parser disagree on %d/%d requests, e.g. %s" % (len(mism), len(reqs), json.dumps(mism[0])[:400]))
         return res
-    names = sorted(templates(tier))
+    names = []
+    T_ = templates(tier)
+    for nm in sorted(T_):
+        n_bytes = len(instantiate(z3, T_[nm])[0])
+        names += [nm if p is None else "%s@%s" % (nm, p) for p in plans_for(n_bytes, tier, nm)]
+    res["read_plans"] = len(names)
     if cannot:
         res["undischarged"] = [{"template": "all", "why": cannot[0][:300]}]
     else:
@@ -455,9 +497,10 @@ def run_part(tier, work, mir):
                     continue
                 data = bytes.fromhex(fl["input"])
                 exp = py_parse(data)
-                line = "req 0 " + (data.hex() or "-")
+                line = "req %d %s" % (native_plan(r.get("plan")), data.hex() or "-")
                 nd, nr = mengine.native_eval(exe, [line])[0], mengine.native_eval(exe_rel, [line])[0]
-                rep = {"request": line, "text": data.decode("latin-1"), "native_dev": nd, "native_release": nr, "expected": fmt_expected(exp) if exp else None, "failed": fl["what"], "template": r["template"]}
+                rep = {"request": line, "text": data.decode("latin-1"), "native_dev": nd, "native_release": nr, "expected": fmt_expected(exp) if exp else None,
+                       "failed": fl["what"] + ("" if r.get("plan") is None else " [read plan %s: %s]" % (r["plan"], "one byte per read" if r["plan"] == "bw" else "two segments split at offset " + r["plan"][1:])), "template": r["template"]}
                 if exp is not None and (nd != rep["expected"] or nr != rep["expected"]):
                     res["violations"].append({"template": r["template"], "replay": rep})
                 else:
